@@ -4,6 +4,11 @@ R = "vlib.cbmc:cbmc_query"
 H = "harness/C18/h_huff.c"
 FAST = ["_X86INTRIN_H_INCLUDED", "_IMMINTRIN_H_INCLUDED"]   # see harness/inflate_common/plans.py
 UNITS = ["igzip/proc_heap_base.c", "igzip/flatten_ll.c"]
+# everything igzip.c links against in the portable-C configuration (harness #includes igzip.c itself)
+IGZIP_UNITS = ["igzip/igzip_base.c", "igzip/igzip_base_aliases.c", "igzip/igzip_icf_base.c", "igzip/igzip_icf_body.c",
+               "igzip/hufftables_c.c", "igzip/huff_codes.c", "igzip/encode_df.c", "igzip/flatten_ll.c",
+               "igzip/adler32_base.c", "igzip/proc_heap_base.c", "igzip/igzip_inflate.c", "crc/crc_base.c",
+               "crc/crc_base_aliases.c"]
 
 
 def q(qid, hdef, unwind=None, unwindset=None, core=False, witness=False, family=None, weight=1.0, defines=(),
@@ -26,20 +31,23 @@ def plan(tier, ctx):
     quick = tier == "quick"
     qs = []
     # (b) run-length coding of code lengths
-    # arbitrary sequences (cost grows ~2.5x per entry: 2^(nc-1) run patterns)
-    for nc in (list(range(1, 8)) if quick else list(range(1, 11))):
-        core = nc == 6
+    # arbitrary sequences (measured: cost grows ~2.5-3x per entry; nc=6 14 s, nc=7 42 s, nc=8 130 s, nc=10 >900 s)
+    for nc in (list(range(1, 7)) if quick else list(range(1, 10))):
+        core = nc == 5
         qs.append(q("rl_encode/nc%d" % nc, ["H_RL", "NC=%d" % nc], unwind=max(nc + 2, 22),
-                    unwindset=["write_rl.0:1", "write_rl.1:%d" % (nc // 6 + 2)], core=core, witness=core, weight=2 ** nc / 8.0,
-                    timeout=(None if quick else 2400)))
-    # sequences made of at most 3 runs with arbitrary boundaries/values, long totals
-    for nc in ([12, 24] if quick else [12, 24, 40, 150]):
-        qs.append(q("rl_runs3/nc%d" % nc, ["H_RL", "NC=%d" % nc, "RUNS=3"], unwind=max(nc + 2, 22),
-                    unwindset=["write_rl.0:2", "write_rl.1:%d" % (nc // 6 + 2)], core=(nc == 12), witness=(nc == 12),
-                    weight=nc))
+                    unwindset=["write_rl.0:1", "write_rl.1:%d" % (nc // 6 + 2)], core=core, witness=core, weight=2 ** nc / 8.0))
+    # all sequences made of at most 2 runs (arbitrary boundary and values), long totals: run chunking by 6 /
+    # zero runs 3..10 / 11..138 in situ, run->run transition, final flush (measured nc=24: 71 s; nc=150: OOM 16 GB)
+    for nc in ([24] if quick else [24, 40]):
+        qs.append(q("rl_runs2/nc%d" % nc, ["H_RL", "NC=%d" % nc, "RUNS=2"], unwind=max(nc + 2, 22),
+                    unwindset=["write_rl.0:2", "write_rl.1:%d" % (nc // 6 + 2)], core=False, witness=False, weight=30))
     qs.append(q("write_rl/run300", ["H_WRL", "RUNMAX=300"], unwind=300 // 6 + 6, core=True, witness=True, weight=10))
     # (c) packed tables and symbol conversions
     qs.append(q("len_table/default", ["H_LEN"], unwind=40, core=True, witness=True, weight=5))
     qs.append(q("sym/default", ["H_SYM"], unwind=40, core=True, witness=True, weight=2))
     qs.append(q("dist_table/default", ["H_DIST"], unwind=40, core=True, witness=True, weight=5))
+    # (e) state guard of isal_deflate_set_hufftables
+    qs.append(Query("set_hufftables/all_states", R,
+                    dict(harness="harness/C18/h_sethuff.c", units=IGZIP_UNITS, defines=FAST, hdefines=[], unwind=17,
+                         witness=True), core=True, family="set_hufftables", weight=3))
     return Plan("C18", "model_checking", qs, functions_encoded=[], bounds={}, stubs=[], assumptions=[], outside=[])
